@@ -53,14 +53,30 @@ func C17(tier string) int {
 	if tier == "thorough" {
 		d, budget = 5, 25*time.Minute
 	}
-	return RunE1(E1Spec{
+	code := RunE1(E1Spec{
 		Prop: "C17", Level: "model_checking", Budget: budget,
 		Families: c17Families(d, tier == "thorough"),
 		Assume: []string{
-			"sequential histories only in this check (bounded: 2 sessions, limit configurations as listed, depth as reported); concurrent approaches to a limit are listed in DESIGN.md as pending scheduler work",
+			"sequential part: bounded to 2 sessions issuing commands one at a time, limit configurations as listed, depth as reported; the concurrent part is reported under coverage.concurrent",
 			"the mailbox count includes INBOX and the recovery mailbox (as the server counts them); an operation is required to be accepted only if it fits every limit with a margin of one",
 		},
 	})
+	// concurrent clause: every interleaving of the database transactions of two / three operations issued at once
+	pairs := [][]string{{"append", "append"}, {"append", "copy2"}, {"copy2", "move2"}, {"append", "conn2"}, {"create:a", "create:b/c"}, {"create:x/y", "create:p/q"}}
+	if tier == "thorough" {
+		pairs = append(pairs, []string{"append", "append", "append"}, []string{"copy2", "conn2"}, []string{"move2", "conn2"}, []string{"append", "copy2", "conn2"})
+	}
+	var cases []any
+	for _, p := range pairs {
+		cases = append(cases, mbox.ConcCase{MaxMailboxes: 7, MaxMessages: 3, Ops: p})
+	}
+	c2 := RunEnumMerge("C17", "concurrent", EnumSpec{Prop: "C17", Level: "model_checking", Call: "c17conc", Cases: cases, Chunk: 1,
+		Rule:   "operations that together exceed a limit are issued at once from a state one below the limit; every interleaving of their database transactions (each db.Client Read / Write is parked at its start and released by the explorer) is enumerated by depth-first replay; distinct = distinct (operation set, acknowledgements, resulting counts)",
+		Assume: []string{"concurrent clause: scheduling granularity is the database transaction (the unit in which a limit is checked and an insertion is made); interleavings inside a transaction are serialised by SQLite"}})
+	if c2 > code {
+		code = c2
+	}
+	return code
 }
 
 func init() {
